@@ -35,6 +35,21 @@ type c17Holder struct {
 	NF64 null.Float `json:"nf64"`
 	SNI  []null.Int `json:"sni"`
 	PNI  *null.Int  `json:"pni"`
+	// nullable columns over plain (non-pointer) numeric fields: what the library's own
+	// schemas give a field tagged omitempty. Each 32/16-bit field is followed by a field
+	// the schema does not name, so that an over-wide load or store shows.
+	OF32   float32 `json:"of32,omitempty"`  // ["null","double"]
+	OF32x  uint32  `json:"-"`
+	OF32b  float32 `json:"of32b,omitempty"` // ["double","null"]
+	OF32bx uint32  `json:"-"`
+	OF32f  float32 `json:"of32f,omitempty"` // ["null","float"]
+	OF32fx uint32  `json:"-"`
+	OF64   float64 `json:"of64,omitempty"`  // ["null","double"]
+	OI16   int16   `json:"oi16,omitempty"`  // ["null","int"]
+	OI16x  uint16  `json:"-"`
+	OI32   int32   `json:"oi32,omitempty"`  // ["long","null"]
+	OI32x  uint32  `json:"-"`
+	OI64   int64   `json:"oi64,omitempty"`  // ["null","long"]
 }
 
 type c17SliceCase struct {
@@ -69,7 +84,9 @@ var c17HolderSchema = `{"type":"record","name":"h","fields":[
  {"name":"pf32","type":["null","double"]},
  {"name":"f32b","type":{"type":"array","items":"float"}},
  {"name":"ni32","type":"int"},{"name":"ni64","type":"long"},{"name":"nf32","type":"float"},{"name":"nf64","type":"double"},
- {"name":"sni","type":{"type":"array","items":"int"}},{"name":"pni","type":["null","int"]}]}`
+ {"name":"sni","type":{"type":"array","items":"int"}},{"name":"pni","type":["null","int"]},
+ {"name":"of32","type":["null","double"]},{"name":"of32b","type":["double","null"]},{"name":"of32f","type":["null","float"]},{"name":"of64","type":["null","double"]},
+ {"name":"oi16","type":["null","int"]},{"name":"oi32","type":["long","null"]},{"name":"oi64","type":["null","long"]}]}`
 
 func runC17Slices(c c17SliceCase) error {
 	lib, err := avro.SchemaFromString(c17HolderSchema)
@@ -158,6 +175,19 @@ func runC17Slices(c c17SliceCase) error {
 	if len(c.F64) > 0 {
 		h.NF64 = null.FloatFrom(math.Float64frombits(c.F64[0]))
 	}
+	const canary32, canary16 = 0xa5c3e1f7, 0xa5c3
+	h.OF32x, h.OF32bx, h.OF32fx, h.OI16x, h.OI32x = canary32, canary32, canary32, canary16, canary32
+	if len(c.F32) > 0 {
+		x := math.Float32frombits(c.F32[len(c.F32)-1])
+		h.OF32, h.OF32b, h.OF32f = x, x, x
+	}
+	if len(c.F64) > 0 {
+		h.OF64 = math.Float64frombits(c.F64[len(c.F64)-1])
+	}
+	if len(c.Ints) > 0 {
+		x := c.Ints[len(c.Ints)-1]
+		h.OI16, h.OI32, h.OI64 = int16(x), int32(x), x
+	}
 	w := avro.NewWriteBuf(nil)
 	codec.Write(w, reflect.ValueOf(&h).UnsafePointer())
 	out := append([]byte(nil), w.Bytes()...)
@@ -242,11 +272,96 @@ func runC17Slices(c c17SliceCase) error {
 		return fmt.Errorf("null.Float %#016x written as %#016x", c.F64[0], f[12].F)
 	}
 
+	// nullable columns over plain numeric fields: zero is the null branch, anything
+	// else the other branch holding exactly the value (-0.0 may be either)
+	nullable := func(idx int, nullBranch int, name string, zero, negZero bool, ok func(v ref.Datum) error) error {
+		u := f[idx]
+		switch {
+		case u.Branch == nullBranch:
+			if !zero && !negZero {
+				return fmt.Errorf("%s: a non-zero value was written as null", name)
+			}
+		case zero:
+			return fmt.Errorf("%s: the zero value of an omitempty field was written as the non-null branch", name)
+		default:
+			if err := ok(*u.U); err != nil {
+				return err
+			}
+		}
+		return nil
+	}
+	{
+		var x32 uint32
+		if len(c.F32) > 0 {
+			x32 = c.F32[len(c.F32)-1]
+		}
+		z, nz := x32 == 0, x32 == 1<<31
+		if err := nullable(15, 0, "of32", z, nz, func(v ref.Datum) error { return dbl(x32, v, "of32") }); err != nil {
+			return err
+		}
+		if err := nullable(16, 1, "of32b", z, nz, func(v ref.Datum) error { return dbl(x32, v, "of32b") }); err != nil {
+			return err
+		}
+		if err := nullable(17, 0, "of32f", z, nz, func(v ref.Datum) error {
+			if uint32(v.F) != x32 {
+				return fmt.Errorf("of32f: float32 %#08x written as float %#08x", x32, uint32(v.F))
+			}
+			return nil
+		}); err != nil {
+			return err
+		}
+		var x64 uint64
+		if len(c.F64) > 0 {
+			x64 = c.F64[len(c.F64)-1]
+		}
+		if err := nullable(18, 0, "of64", x64 == 0, x64 == 1<<63, func(v ref.Datum) error {
+			if v.F != x64 {
+				return fmt.Errorf("of64: %#016x written as %#016x", x64, v.F)
+			}
+			return nil
+		}); err != nil {
+			return err
+		}
+		var xi int64
+		if len(c.Ints) > 0 {
+			xi = c.Ints[len(c.Ints)-1]
+		}
+		for _, col := range []struct {
+			idx, nb int
+			name    string
+			want    int64
+		}{{19, 0, "oi16", int64(int16(xi))}, {20, 1, "oi32", int64(int32(xi))}, {21, 0, "oi64", xi}} {
+			want := col.want
+			if err := nullable(col.idx, col.nb, col.name, want == 0, false, func(v ref.Datum) error {
+				if v.I != want {
+					return fmt.Errorf("%s: %d written as %d", col.name, want, v.I)
+				}
+				return nil
+			}); err != nil {
+				return err
+			}
+		}
+	}
+
 	// and read back
 	var g c17Holder
+	g.OF32x, g.OF32bx, g.OF32fx, g.OI16x, g.OI32x = canary32, canary32, canary32, canary16, canary32
 	rb := avro.NewReadBuf(out)
 	if err := codec.Read(rb, reflect.ValueOf(&g).UnsafePointer()); err != nil || rb.Len() != 0 {
 		return fmt.Errorf("reading the record back: err=%v, %d bytes left", err, rb.Len())
+	}
+	if g.OF32x != canary32 || g.OF32bx != canary32 || g.OF32fx != canary32 || g.OI16x != canary16 || g.OI32x != canary32 {
+		return fmt.Errorf("reading a nullable numeric column changed the field next to it (not named in the schema): %#x %#x %#x %#x %#x", g.OF32x, g.OF32bx, g.OF32fx, g.OI16x, g.OI32x)
+	}
+	{
+		eq32 := func(a, b float32) bool {
+			return math.Float32bits(a) == math.Float32bits(b) || (a != a && b != b) || (a == 0 && b == 0)
+		}
+		if !eq32(g.OF32, h.OF32) || !eq32(g.OF32b, h.OF32b) || math.Float32bits(g.OF32f) != math.Float32bits(h.OF32f) && !(h.OF32f == 0 && g.OF32f == 0) ||
+			math.Float64bits(g.OF64) != math.Float64bits(h.OF64) && !(h.OF64 == 0 && g.OF64 == 0) || g.OI16 != h.OI16 || g.OI32 != h.OI32 || g.OI64 != h.OI64 {
+			return fmt.Errorf("nullable numeric columns read back differently: wrote %v %v %v %v %d %d %d, read %v %v %v %v %d %d %d",
+				h.OF32, h.OF32b, h.OF32f, h.OF64, h.OI16, h.OI32, h.OI64, g.OF32, g.OF32b, g.OF32f, g.OF64, g.OI16, g.OI32, g.OI64)
+		}
 	}
 	same32 := func(x uint32, got float32) bool {
 		gb := math.Float32bits(got)
